@@ -6,6 +6,7 @@ import (
 	"fmt"
 	"net/http/httptest"
 	"runtime"
+	"sort"
 	"strconv"
 	"strings"
 	"sync"
@@ -56,10 +57,22 @@ func init() {
 	props = append(props, &hlib.Prop{ID: "C24", Gen: genC24, Exec: execC24})
 }
 
-type limitsFile struct{ content []byte }
+type limitsFile struct {
+	mu      sync.Mutex
+	content []byte
+}
 
-func (f limitsFile) Content() ([]byte, error) { return f.content, nil }
-func (f limitsFile) Path() string             { return "" }
+func (f *limitsFile) Content() ([]byte, error) {
+	f.mu.Lock()
+	defer f.mu.Unlock()
+	return f.content, nil
+}
+func (f *limitsFile) Path() string { return "" }
+func (f *limitsFile) set(capacity int) {
+	f.mu.Lock()
+	f.content = []byte(fmt.Sprintf("write:\n  global:\n    max_concurrency: %d\n", capacity))
+	f.mu.Unlock()
+}
 
 type gateReq struct {
 	id       int
@@ -76,6 +89,8 @@ type gateEnv struct {
 	mu      sync.Mutex
 	h       *receive.Handler
 	reg     *prometheus.Registry
+	limiter *receive.Limiter
+	limits  *limitsFile
 	cap     int
 	otlp    bool
 	reqs    []*gateReq
@@ -130,12 +145,13 @@ func (p *gatePeer) RemoteWrite(ctx context.Context, in *storepb.WriteRequest, _ 
 
 func newGateEnv(capacity int, otlp bool) (*gateEnv, error) {
 	reg := prometheus.NewRegistry()
-	cfg := fmt.Sprintf("write:\n  global:\n    max_concurrency: %d\n", capacity)
-	limiter, err := receive.NewLimiter(limitsFile{[]byte(cfg)}, reg, receive.RouterIngestor, log.NewNopLogger(), time.Hour)
+	lf := &limitsFile{}
+	lf.set(capacity)
+	limiter, err := receive.NewLimiter(lf, reg, receive.RouterIngestor, log.NewNopLogger(), time.Hour)
 	if err != nil {
 		return nil, err
 	}
-	g := &gateEnv{reg: reg, cap: capacity, otlp: otlp, wake: make(chan struct{}, 1)}
+	g := &gateEnv{reg: reg, limiter: limiter, limits: lf, cap: capacity, otlp: otlp, wake: make(chan struct{}, 1)}
 	opts := &receive.Options{
 		TenantHeader:            tenancy.DefaultTenantHeader,
 		DefaultTenantID:         tenancy.DefaultTenant,
@@ -191,7 +207,11 @@ func otlpBody(id int) []byte {
 	return buf
 }
 
-func (g *gateEnv) launch(cancelled bool) *gateReq {
+func (g *gateEnv) launch(cancelled bool) *gateReq { return g.launchOn(cancelled, g.otlp, nil) }
+
+// launchOn starts a request on the given endpoint; with a barrier the request goroutine waits for
+// it before it enters the handler (so that several requests arrive together).
+func (g *gateEnv) launchOn(cancelled, otlp bool, barrier <-chan struct{}) *gateReq {
 	ctx, cancel := context.WithCancel(context.Background())
 	g.mu.Lock()
 	r := &gateReq{id: len(g.reqs), cancel: cancel, release: make(chan struct{})}
@@ -215,7 +235,10 @@ func (g *gateEnv) launch(cancelled bool) *gateReq {
 			g.pulse()
 		}()
 		rec := httptest.NewRecorder()
-		if g.otlp {
+		if barrier != nil {
+			<-barrier
+		}
+		if otlp {
 			req := httptest.NewRequest("POST", "/api/v1/otlp", bytes.NewReader(otlpBody(r.id))).WithContext(ctx)
 			req.Header.Set("Content-Type", "application/x-protobuf")
 			req.Header.Set(tenancy.DefaultTenantHeader, "t")
@@ -300,6 +323,44 @@ func (g *gateEnv) quiesce() (int, int, bool) {
 	}
 }
 
+// cleanup lets every request go and closes the handler.
+func (g *gateEnv) cleanup() {
+	// clean up: let every request go (not part of the answer); a request that is handed a freed slot
+	// while the others leave shows up inside the peer a little later, so keep scanning
+	cleanupDeadline := time.Now().Add(stepTimeout)
+	for {
+		all := true
+		var toRelease []*gateReq
+		g.mu.Lock()
+		for _, r := range g.reqs {
+			if r.returned {
+				continue
+			}
+			all = false
+			if r.entered && !r.released {
+				r.released = true
+				toRelease = append(toRelease, r)
+			}
+		}
+		reqs := append([]*gateReq(nil), g.reqs...)
+		g.mu.Unlock()
+		for _, r := range toRelease {
+			close(r.release)
+		}
+		for _, r := range reqs {
+			r.cancel()
+		}
+		if all || time.Now().After(cleanupDeadline) {
+			break
+		}
+		select {
+		case <-g.wake:
+		case <-time.After(200 * time.Microsecond):
+		}
+	}
+	g.h.Close()
+}
+
 func (g *gateEnv) waitReturned(r *gateReq) bool {
 	deadline := time.Now().Add(stepTimeout)
 	for {
@@ -330,7 +391,90 @@ func (g *gateEnv) oldest(pred func(*gateReq) bool) *gateReq {
 	return nil
 }
 
+// execGateFirst: K requests reach a freshly configured limiter together (optionally right after a
+// limits reload), repeated `gateFirstReps` times on fresh limiters; the answer is what every
+// repetition must show.
+const gateFirstReps = 40
+
+func execGateFirst(c *hlib.Ctx, tok []string) string {
+	if len(tok) != 5 {
+		return "bad-op"
+	}
+	capacity, err1 := strconv.Atoi(tok[2])
+	k, err2 := strconv.Atoi(tok[3])
+	reload, err3 := strconv.Atoi(tok[4])
+	if err1 != nil || err2 != nil || err3 != nil || capacity < 1 || capacity > 8 || k < 1 || k > 8 || reload < 0 || reload > 8 || tok[1] == "" {
+		return "bad-op"
+	}
+	for _, ch := range tok[1] {
+		if ch != 'h' && ch != 'o' {
+			return "bad-op"
+		}
+	}
+	if runtime.GOMAXPROCS(0) < 2 {
+		runtime.GOMAXPROCS(2)
+	}
+	inForce := capacity
+	if reload > 0 {
+		inForce = reload
+	}
+	answers := map[string]int{}
+	worst := 0
+	for rep := 0; rep < gateFirstReps; rep++ {
+		g, err := newGateEnv(capacity, false)
+		if err != nil {
+			return "limiter-error:" + err.Error()
+		}
+		if reload > 0 {
+			// the limits file changes and the reloader calls loadConfig
+			g.limits.set(reload)
+			if err := receive.VerifLoadLimits(g.limiter); err != nil {
+				return "reload-error:" + err.Error()
+			}
+		}
+		barrier := make(chan struct{})
+		for i := 0; i < k; i++ {
+			g.launchOn(false, tok[1][i%len(tok[1])] == 'o', barrier)
+		}
+		runtime.Gosched()
+		close(barrier)
+		running, waiting, ok := g.quiesce()
+		g.mu.Lock()
+		maxPeer, panics := g.maxPeer, len(g.panics)
+		g.mu.Unlock()
+		if maxPeer > worst {
+			worst = maxPeer
+		}
+		a := fmt.Sprintf("%d.%d max=%d", running, waiting, maxPeer)
+		if !ok {
+			a += " stuck"
+		}
+		if panics > 0 {
+			a += fmt.Sprintf(" p=%d", panics)
+		}
+		answers[a]++
+		g.cleanup()
+	}
+	if worst > inForce {
+		c.Violation("gate-exceeded-first-arrivals", fmt.Sprintf("max_concurrency %d but %d of %d simultaneous first arrivals were inside the write path at the same time (requests were handed different gates)", inForce, worst, k))
+	}
+	if len(answers) == 1 {
+		for a := range answers {
+			return a
+		}
+	}
+	var parts []string
+	for a, n := range answers {
+		parts = append(parts, fmt.Sprintf("%dx[%s]", n, a))
+	}
+	sort.Strings(parts)
+	return "varies:" + strings.Join(parts, ",")
+}
+
 func execC24(c *hlib.Ctx, tok []string) string {
+	if len(tok) > 0 && tok[0] == "gate.first" {
+		return execGateFirst(c, tok)
+	}
 	if len(tok) != 4 || tok[0] != "gate" || (tok[1] != "h" && tok[1] != "o") {
 		return "bad-op"
 	}
@@ -403,40 +547,7 @@ func execC24(c *hlib.Ctx, tok []string) string {
 			c.Count("status:" + k)
 		}
 	}
-	// clean up: let every request go (not part of the answer); a request that is handed a freed slot
-	// while the others leave shows up inside the peer a little later, so keep scanning
-	cleanupDeadline := time.Now().Add(stepTimeout)
-	for {
-		all := true
-		var toRelease []*gateReq
-		g.mu.Lock()
-		for _, r := range g.reqs {
-			if r.returned {
-				continue
-			}
-			all = false
-			if r.entered && !r.released {
-				r.released = true
-				toRelease = append(toRelease, r)
-			}
-		}
-		reqs := append([]*gateReq(nil), g.reqs...)
-		g.mu.Unlock()
-		for _, r := range toRelease {
-			close(r.release)
-		}
-		for _, r := range reqs {
-			r.cancel()
-		}
-		if all || time.Now().After(cleanupDeadline) {
-			break
-		}
-		select {
-		case <-g.wake:
-		case <-time.After(200 * time.Microsecond):
-		}
-	}
-	g.h.Close()
+	g.cleanup()
 	if stuck {
 		c.Violation("gate-stuck", "a step did not reach quiescence within the deadline: "+strings.Join(out, ","))
 		return strings.Join(out, ",") + " stuck"
@@ -489,6 +600,18 @@ func genC24(c *hlib.Ctx) {
 				c.Do(fmt.Sprintf("gate %s %d %s", entry, capacity, strings.Join(p, ",")), true)
 			})
 		}
+	}
+	// K simultaneous first arrivals at a fresh limiter / right after a limits reload (40 fresh limiters per op)
+	for it := 0; it < c.N(16, 120); it++ {
+		capacity := r.Range(1, 3)
+		k := r.Range(2, 8)
+		reload := 0
+		if r.Chance(1, 2) {
+			reload = r.Range(1, 3)
+		}
+		entries := r.Pick([]string{"h", "o", "ho", "oh", "hho"})
+		c.Count(fmt.Sprintf("first:%s:k%d:reload%v", entries, k, reload > 0))
+		c.Do(fmt.Sprintf("gate.first %s %d %d %d", entries, capacity, k, reload), true)
 	}
 	// longer random schedules, caps 1..4, biased towards full gates with waiters
 	for it := 0; it < c.N(100, 2000); it++ {
